@@ -187,10 +187,67 @@ def rule_r3(ck, prog, rule='C16.R3'):
     ck.verdict(ok, rule, f, 'jaeger-four-fields', fc[0] if fc else None, 'exactly four fields' if ok else 'the Jaeger header is not required to have exactly four fields')
 
 
+def rule_r3_decode_contract(ck, prog, rule='C16.R3'):
+    """cooperating sites: a caller that ignores HexToBinary's result relies on the buffer being zero-filled on the failure path
+    (all-zero id => invalid => rejected). Either every caller checks the result, or every return of HexToBinary is behind a
+    memset of the whole buffer."""
+    hb = prog.function('trace::propagation::detail::HexToBinary')
+    g = Graph(prog, hb, inline=None, sync_lambdas=False)
+    buf, size = hb.params[1], hb.params[2]
+    fills = [p for p in g.points if p.n is not None and p.n['k'] == 'call' and strip_targs(p.n.get('c', '')).rsplit('::', 1)[-1] == 'memset' and
+             len(p.n.get('args', [])) == 3 and strip_casts(hb, p.n['args'][0]).get('id') == buf['id'] and
+             strip_casts(hb, p.n['args'][1]).get('v') == 0 and strip_casts(hb, p.n['args'][2]).get('id') == size['id']]
+    zero_filled = bool(fills) and all(g.must_pass(r, fills) for r in g.returns())
+    cnt = 0
+    for f in sorted(prog.funcs.values(), key=lambda x: x.key):
+        if not f.qn.startswith('opentelemetry::trace::propagation::'):
+            continue
+        pm = None
+        for n in f.nodes:
+            if n['k'] == 'call' and strip_targs(n.get('c', '')).endswith('detail::HexToBinary'):
+                pm = pm or f.parent_map()
+                par = f.nodes[pm[n['i']]] if n['i'] in pm else None
+                discarded = par is not None and par['k'] in ('CompoundStmt', 'ExprWithCleanups') or (par is not None and par['k'] == 'cast' and 'void' == (par.get('t') or ''))
+                if not discarded:
+                    continue
+                cnt += 1
+                ck.verdict(zero_filled, rule, f, 'ignored-decode-relies-on-zero-fill@%s' % f.name, n,
+                           'the result is ignored, and HexToBinary zero-fills the whole buffer before every return: an over-long field decodes to the all-zero (invalid) id' if zero_filled else
+                           '%s ignores the result of HexToBinary, and HexToBinary no longer zero-fills the whole buffer on every path: an over-long id is built from uninitialised bytes and installed' % f.name)
+    return cnt
+
+
+def rule_r1_sampling_not_validity(ck, prog, rule='C16.R1'):
+    """B3: the sampling field only decides the sampled flag ('d' and unknown values included) - it never makes the header invalid"""
+    f = prog.function('trace::propagation::B3PropagatorExtractor::ExtractImpl')
+    g = Graph(prog, f, inline=None, sync_lambdas=False)
+    tf = [n for n in f.nodes if n['k'] == 'call' and strip_targs(n.get('c', '')).endswith('TraceFlagsFromHex')]
+    succ = [r for r in g.returns() if strip_casts(f, r.n['e'])['k'] == 'construct' and len(strip_casts(f, r.n['e']).get('args', [])) >= 4]
+    if not tf or not succ:
+        raise AnalysisBroken('B3 ExtractImpl: TraceFlagsFromHex / success return not found')
+    a = strip_casts(f, tf[0]['args'][0])
+    if a['k'] != 'ref':
+        ck.inconclusive(rule, f, 'sampling-field-never-invalidates', tf[0], 'the sampling field is not a local')
+        return
+    bad = None
+    for p in g.points:
+        labelled = [(q, lab) for (q, lab) in p.succ if lab and isinstance(lab[0], int) and lab[1] is f]
+        if len(labelled) < 2:
+            continue
+        if not any(f.nodes[j]['k'] == 'ref' and f.nodes[j].get('id') == a['id'] for j in f.subtree(labelled[0][1][0])):
+            continue
+        can = [any(r.id in g.reachable_from([q]) for r in succ) for (q, _l) in labelled]
+        if any(can) and not all(can):
+            bad = p
+    ck.verdict(bad is None, rule, f, 'sampling-field-never-invalidates', bad.n if bad is not None else tf[0],
+               'no branch on the sampling field cuts off the success return' if bad is None else
+               'a test of the sampling field decides whether the header is accepted at all: values such as the debug flag "d" make B3 drop the ids and the sampling decision')
+
+
 def run(ck, prog):
-    ck.doc('C16.R1', 'sampling field written from IsSampled() only; extractors read exactly the sampled decision', 5)
+    ck.doc('C16.R1', 'sampling field written from IsSampled() only; extractors read exactly the sampled decision; the B3 sampling field never invalidates', 6)
     ck.doc('C16.R2', 'constant-bounded, exactly partitioned header buffers with separators at the documented offsets', 6)
-    ck.doc('C16.R3', 'install only valid contexts; B3 single-header precedence; decodes checked', 10)
+    ck.doc('C16.R3', 'install only valid contexts; B3 single-header precedence; decodes checked or zero-filled', 11)
     ck.doc('C09.R3', '(shared rule) bounded subscripts into constant tables (hex lookup)', 10)
     with ck.canary('C16.R1'):
         rule_r1(ck, prog, injectors=(('canary::c16::BadInject', None),))
@@ -199,5 +256,8 @@ def run(ck, prog):
     c09.rule_r1(ck, prog, rule='C16.R2', fname='trace::propagation::JaegerPropagator::Inject', want_size=54,
                 want={32: ord(':'), 49: ord(':'), 50: ord('0'), 51: ord(':'), 52: ord('0')}, allow_nonliteral=(53,))
     rule_r3(ck, prog)
+    if not rule_r3_decode_contract(ck, prog):
+        ck.holds('C16.R3', prog.function('trace::propagation::detail::HexToBinary'), 'every-decode-result-checked', None, 'no caller ignores the result of HexToBinary')
+    rule_r1_sampling_not_validity(ck, prog)
     c09.rule_r3(ck, prog, rule='C09.R3')
     return {}
